@@ -1957,6 +1957,8 @@ def deviationStage (reg : Registry) (opts : Opts) (env : Env) (fuel : Nat) (f0 :
 theorem ne_nil_of_not_isEmpty {α} {l : List α} (h : (!l.isEmpty) = true) : l ≠ [] := by
   intro he; subst he; simp at h
 
+-- (the augment stage is kept folded: nothing here looks inside it)
+attribute [local irreducible] augmentPhase in
 /-- `processAll` ends early with the errors of the earlier stages, or runs the deviation stage on
 the forest the earlier stages built and returns its forest and, canonically ordered, the errors so
 far plus those of the deviations. -/
